@@ -3,7 +3,8 @@
 (* Are recorded runs of the real component behaviours of BankedMem under a *)
 (* given set of deviations?  Port events are logged; the sub-steps inside  *)
 (* the component (Dispatch, Expire, Exit, Commit) are not observable       *)
-(* through the port and are chosen by TLC (search).                        *)
+(* through the port and are chosen by TLC (search; Exit and Commit are     *)
+(* taken as one step, see BankedMem!ExitAndCommit).                        *)
 (*                                                                         *)
 (* Used (a) to bind the implementation-shaped model to the code: every     *)
 (* small replayed run must be a behaviour of BankedMem with the            *)
@@ -65,13 +66,23 @@ TQuiesce == /\ Is("Quiesce") /\ Quiescent /\ Answered = 1..Len(reqs)
             /\ PrintT(<<"RUNOK", run, hyp>>)
             /\ UNCHANGED vars
 
-\* unobservable sub-steps
+\* Unobservable sub-steps.  Banks do not interact (requests that share a byte share a bank), so it is enough to let
+\* the bank work whose response is the next one in the log: every other interleaving is equivalent to one of these.
+NextRsp[i \in 1..(N + 1)] ==
+  IF i > N THEN 0
+  ELSE IF TraceLog[i].e = "Reset" THEN 0
+  ELSE IF TraceLog[i].e = "Rsp" THEN i
+  ELSE NextRsp[i + 1]
+FocusBank == IF l > N \/ NextRsp[l] = 0 THEN -1
+             ELSE LET id == TraceLog[NextRsp[l]].id IN
+                  IF id \in 1..Len(loc) THEN loc[id].b ELSE -1
+
 TInternal ==
-  /\ l <= N /\ TraceLog[l].e # "Reset" /\ UNCHANGED <<l, run, hyp>>
-  /\ \/ \E i \in 1..Len(pending), lane \in Lanes : Dispatch(i, lane)
-     \/ \E b \in Banks : \/ \E lane \in Lanes : Expire(b, lane)
-                         \/ \E k \in 1..Len(pipe[b]) : Exit(b, k)
-                         \/ Commit(b)
+  /\ FocusBank >= 0 /\ UNCHANGED <<l, run, hyp>>
+  /\ LET b == FocusBank IN
+     \/ \E i \in 1..Len(pending), lane \in Lanes : loc[pending[i]].b = b /\ Dispatch(i, lane)
+     \/ \E lane \in Lanes : Expire(b, lane)
+     \/ \E k \in 1..Len(pipe[b]) : ExitAndCommit(b, k)
 
 TNext == TEnvReq \/ TDrain \/ TRsp \/ TTake \/ TQuiesce \/ TInternal
 TSpec == TInit /\ [][TNext]_tvars
